@@ -1,11 +1,837 @@
-//! C05 — check not built yet.
-use mc_core::Args;
-use serde_json::Value;
+//! C05 — compact-block scanning finds exactly the wallet's notes and spends.
+//!
+//! (a) block-shape lattice through the public `scanning::scan_block` against generation-time
+//!     ground truth;
+//! (b) continuity / malformation lattice: `Err(ScanError)`, never a panic, wallet unchanged;
+//! (c) every run-to-completion schedule of the batch trial-decryption tasks of
+//!     `scan_cached_blocks` (executor seam `zcash_client_backend::scan::verif_exec`), against the
+//!     same ground truth and the inline (runner-less) path.
 
-pub fn replay(_kind: &str, _case: &Value) -> Result<(), String> {
-    Err("C05: check not built".into())
+use std::cell::RefCell;
+use std::collections::{BTreeMap, BTreeSet};
+use std::rc::Rc;
+use std::sync::Mutex;
+use std::time::Instant;
+
+use mc_core::{Args, Run, Tier};
+use serde_json::{json, Value};
+use zcash_client_backend::data_api::chain::{error::Error as ChainError, scan_cached_blocks, BlockSource};
+use zcash_client_backend::data_api::{BlockMetadata, WalletRead, WalletWrite};
+use zcash_client_backend::proto::compact_formats::CompactBlock;
+use zcash_client_backend::scan::verif_exec;
+use zcash_client_backend::scanning::{scan_block, Nullifiers, ScanningKeys};
+use zcash_primitives::block::BlockHash;
+use zcash_protocol::consensus::BlockHeight;
+
+use crate::db::{self, Wallet};
+use crate::graph::{self, par_map, Model, Op};
+use crate::universe::Owner::*;
+use crate::universe::Pool::*;
+use crate::universe::Scope::*;
+use crate::universe::*;
+use crate::universes::FIRST;
+
+// ------------------------------------------------------------------------------------------------
+// (a) shape lattice
+// ------------------------------------------------------------------------------------------------
+
+const KINDS: [(Owner, Scope); 5] = [(A, External), (A, Diversified), (A, Internal), (B, External), (Foreign, External)];
+const SPENDABLE: [&str; 7] = ["a1", "a2", "a3", "b1", "b2", "f1", "f2"];
+
+fn base(genesis: (u64, u64)) -> Universe {
+    // NU6.3 active from the first block so that Ironwood outputs are valid everywhere.
+    let mut u = Universe::new(Some(FIRST), FIRST, genesis, 21);
+    u.extend(
+        0,
+        None,
+        &[block(vec![
+            tx(vec![out("a1", A, Sapling, External, 60_000), out("a2", A, Orchard, External, 70_000), out("a3", A, Ironwood, External, 80_000)]),
+            tx(vec![out("b1", B, Sapling, External, 30_000), out("b2", B, Orchard, Internal, 20_000), out("f1", Foreign, Sapling, External, 11_000), out("f2", Foreign, Orchard, External, 12_000)]),
+        ])],
+        300,
+    );
+    u
 }
 
-pub fn run(_args: &Args) -> i32 {
-    mc_core::machinery_error("C05: check not built")
+fn okind(i: usize, pool: Pool, v: u64) -> (Option<&'static str>, Item) {
+    (None, Item::Out { owner: KINDS[i].0, pool, scope: KINDS[i].1, value: v })
+}
+
+/// The block specs of the lattice, each with a stable name.
+fn shapes() -> Vec<(String, BlockSpec)> {
+    let mut v = vec![];
+    // 1. single transaction, single pool, every kind list of length <= 3
+    for p in POOLS {
+        let mut lists: Vec<Vec<usize>> = vec![vec![]];
+        let mut level: Vec<Vec<usize>> = vec![vec![]];
+        for _ in 0..3 {
+            let mut next = vec![];
+            for l in &level {
+                for k in 0..KINDS.len() {
+                    let mut t = l.clone();
+                    t.push(k);
+                    next.push(t);
+                }
+            }
+            lists.extend(next.iter().cloned());
+            level = next;
+        }
+        for l in lists {
+            if l.is_empty() {
+                continue;
+            }
+            let items = l.iter().enumerate().map(|(i, k)| okind(*k, p, 10_000 + i as u64)).collect();
+            v.push((format!("1tx:{p:?}:{l:?}"), block(vec![tx(items)])));
+        }
+    }
+    // 2. single transaction, one optional output per pool
+    for s in 0..6usize {
+        for o in 0..6usize {
+            for i in 0..6usize {
+                let mut items = vec![];
+                if s < 5 {
+                    items.push(okind(s, Sapling, 21_000));
+                }
+                if o < 5 {
+                    items.push(okind(o, Orchard, 22_000));
+                }
+                if i < 5 {
+                    items.push(okind(i, Ironwood, 23_000));
+                }
+                if items.len() >= 2 {
+                    v.push((format!("xpool:{s}{o}{i}"), block(vec![tx(items)])));
+                }
+            }
+        }
+    }
+    // 3. two and three transactions of one output each
+    for p in POOLS {
+        for a in 0..5 {
+            for b in 0..5 {
+                v.push((format!("2tx:{p:?}:{a}{b}"), block(vec![tx(vec![okind(a, p, 31_000)]), tx(vec![okind(b, p, 32_000)])])));
+                for c in 0..5 {
+                    v.push((format!("3tx:{p:?}:{a}{b}{c}"), block(vec![tx(vec![okind(a, p, 31_000)]), tx(vec![okind(b, p, 32_000)]), tx(vec![okind(c, p, 33_000)])])));
+                }
+            }
+        }
+    }
+    // 4. spends of tracked (A, B) and untracked (foreign) notes: every subset of size <= 2,
+    //    alone or with a change output in the pool of the first spend
+    for i in 0..SPENDABLE.len() {
+        for j in i..=SPENDABLE.len() {
+            let mut labels = vec![SPENDABLE[i]];
+            if j < SPENDABLE.len() {
+                if j == i {
+                    continue;
+                }
+                labels.push(SPENDABLE[j]);
+            }
+            for change in [false, true] {
+                let mut items: Vec<(Option<&'static str>, Item)> = labels.iter().map(|l| spend(l)).collect();
+                if change {
+                    let pool = match labels[0] {
+                        "a1" | "b1" | "f1" => Sapling,
+                        "a2" | "b2" | "f2" => Orchard,
+                        _ => Ironwood,
+                    };
+                    items.push(okind(2, pool, 5_500));
+                }
+                v.push((format!("spend:{labels:?}:{change}"), block(vec![tx(items)])));
+            }
+        }
+        // a spend in the second transaction, after a receipt in the first
+        v.push((format!("recv-then-spend:{}", SPENDABLE[i]), block(vec![tx(vec![okind(0, Orchard, 41_000), okind(3, Sapling, 42_000)]), tx(vec![spend(SPENDABLE[i]), okind(2, Orchard, 1_000)])])));
+    }
+    // 5. empty block
+    v.push(("empty".into(), BlockSpec::default()));
+    v
+}
+
+struct ScanEnv {
+    w: Wallet,
+    keys: ScanningKeys<zcash_client_sqlite::AccountUuid, (zcash_client_sqlite::AccountUuid, zip32::Scope)>,
+    nullifiers: Nullifiers<zcash_client_sqlite::AccountUuid>,
+}
+
+fn scan_env(u: &Universe) -> ScanEnv {
+    let mut w = db::new_wallet(u, 4, false);
+    let src = u.source(0);
+    scan_cached_blocks(&u.network, &src, &mut w.db, BlockHeight::from_u32(FIRST), &u.genesis, 1).expect("setup scan");
+    let keys = ScanningKeys::from_account_ufvks(w.db.get_unified_full_viewing_keys().expect("ufvks"));
+    let nullifiers = Nullifiers::unspent(&w.db).expect("nullifiers");
+    ScanEnv { w, keys, nullifiers }
+}
+
+fn prior_meta(u: &Universe, h: u32) -> BlockMetadata {
+    let st = u.state_before(0, h);
+    BlockMetadata::from_parts(
+        st.block_height(),
+        st.block_hash(),
+        Some(st.final_sapling_tree().tree_size() as u32),
+        Some(st.final_orchard_tree().tree_size() as u32),
+        Some(st.final_ironwood_tree().tree_size() as u32),
+    )
+}
+
+/// Compare one ScannedBlock with the ground truth of block `h` of chain 0.
+fn compare(env: &ScanEnv, u: &Universe, h: u32, sb: &zcash_client_backend::data_api::ScannedBlock<zcash_client_sqlite::AccountUuid>) -> Result<Vec<String>, String> {
+    let rec = &u.chains[0].blocks[&h];
+    let acct = |o: Owner| if o == A { env.w.acct_a } else { env.w.acct_b };
+    let mut outcomes = vec![];
+    // expected receipts / spends per txid
+    let mut want_recv: BTreeSet<String> = BTreeSet::new();
+    let mut want_spend: BTreeSet<String> = BTreeSet::new();
+    let tracked: BTreeSet<Vec<u8>> = env.nullifiers.sapling().iter().map(|(_, n)| n.0.to_vec()).chain(env.nullifiers.orchard().iter().map(|(_, n)| n.to_bytes().to_vec())).chain(env.nullifiers.ironwood().iter().map(|(_, n)| n.to_bytes().to_vec())).collect();
+    for t in &rec.txs {
+        for id in &t.created {
+            let n = &u.notes[*id];
+            if n.owner != Foreign {
+                let scope = if n.scope == Internal { "Internal" } else { "External" };
+                want_recv.insert(format!("{}|{:?}|{}|{:?}|{}|{}|{}|{}", hex::encode(n.txid), n.pool, n.output_index, acct(n.owner), n.value, scope, n.position, hex::encode(n.nf.bytes())));
+            }
+        }
+        for id in &t.spent {
+            let n = &u.notes[*id];
+            if n.owner != Foreign && tracked.contains(&n.nf.bytes()) {
+                want_spend.insert(format!("{}|{:?}|{:?}|{}", hex::encode(t.txid), n.pool, acct(n.owner), hex::encode(n.nf.bytes())));
+            }
+        }
+    }
+    let mut got_recv = BTreeSet::new();
+    let mut got_spend = BTreeSet::new();
+    for wtx in sb.transactions() {
+        let txid = hex::encode(<[u8; 32]>::from(wtx.txid()));
+        for o in wtx.sapling_outputs() {
+            got_recv.insert(format!(
+                "{txid}|Sapling|{}|{:?}|{}|{:?}|{}|{}",
+                o.index(),
+                o.account_id(),
+                o.note().value().inner(),
+                o.recipient_key_scope().expect("scope"),
+                u64::from(o.note_commitment_tree_position()),
+                o.nf().map(|n| hex::encode(n.0)).unwrap_or_default()
+            ));
+        }
+        for (pool, outs) in [("Orchard", wtx.orchard_outputs()), ("Ironwood", wtx.ironwood_outputs())] {
+            for o in outs {
+                if format!("{:?}", o.note().1) != pool {
+                    return Err(format!("output in the {pool} bundle reported with value pool {:?}", o.note().1));
+                }
+                got_recv.insert(format!(
+                    "{txid}|{pool}|{}|{:?}|{}|{:?}|{}|{}",
+                    o.index(),
+                    o.account_id(),
+                    o.note().0.value().inner(),
+                    o.recipient_key_scope().expect("scope"),
+                    u64::from(o.note_commitment_tree_position()),
+                    o.nf().map(|n| hex::encode(n.to_bytes())).unwrap_or_default()
+                ));
+            }
+        }
+        for s in wtx.sapling_spends() {
+            got_spend.insert(format!("{txid}|Sapling|{:?}|{}", s.account_id(), hex::encode(s.nf().0)));
+        }
+        for s in wtx.orchard_spends() {
+            got_spend.insert(format!("{txid}|Orchard|{:?}|{}", s.account_id(), hex::encode(s.nf().to_bytes())));
+        }
+        for s in wtx.ironwood_spends() {
+            got_spend.insert(format!("{txid}|Ironwood|{:?}|{}", s.account_id(), hex::encode(s.nf().to_bytes())));
+        }
+    }
+    if got_recv != want_recv {
+        return Err(format!(
+            "received outputs differ from ground truth: missing {:?} unexpected {:?}",
+            want_recv.difference(&got_recv).take(2).collect::<Vec<_>>(),
+            got_recv.difference(&want_recv).take(2).collect::<Vec<_>>()
+        ));
+    }
+    if got_spend != want_spend {
+        return Err(format!(
+            "reported spends differ from ground truth: missing {:?} unexpected {:?}",
+            want_spend.difference(&got_spend).take(2).collect::<Vec<_>>(),
+            got_spend.difference(&want_spend).take(2).collect::<Vec<_>>()
+        ));
+    }
+    // commitments in block order + final tree sizes
+    let cms_s: Vec<[u8; 32]> = rec.cb.vtx.iter().flat_map(|t| t.outputs.iter().map(|o| <[u8; 32]>::try_from(o.cmu.clone()).unwrap())).collect();
+    let cms_o: Vec<[u8; 32]> = rec.cb.vtx.iter().flat_map(|t| t.actions.iter().map(|o| <[u8; 32]>::try_from(o.cmx.clone()).unwrap())).collect();
+    let cms_i: Vec<[u8; 32]> = rec.cb.vtx.iter().flat_map(|t| t.ironwood_actions.iter().map(|o| <[u8; 32]>::try_from(o.cmx.clone()).unwrap())).collect();
+    let got_s: Vec<[u8; 32]> = sb.sapling().commitments().iter().map(|(n, _)| n.to_bytes()).collect();
+    let got_o: Vec<[u8; 32]> = sb.orchard().commitments().iter().map(|(n, _)| n.to_bytes()).collect();
+    let got_i: Vec<[u8; 32]> = sb.ironwood().commitments().iter().map(|(n, _)| n.to_bytes()).collect();
+    if got_s != cms_s || got_o != cms_o || got_i != cms_i {
+        return Err("note commitments are not returned in block order".into());
+    }
+    let st = &rec.state_after;
+    let want_sizes = (st.final_sapling_tree().tree_size() as u32, st.final_orchard_tree().tree_size() as u32, st.final_ironwood_tree().tree_size() as u32);
+    let got_sizes = (sb.sapling().final_tree_size(), sb.orchard().final_tree_size(), sb.ironwood().final_tree_size());
+    if want_sizes != got_sizes {
+        return Err(format!("final tree sizes {got_sizes:?} != {want_sizes:?}"));
+    }
+    if u32::from(sb.height()) != h || sb.block_hash() != st.block_hash() {
+        return Err("scanned block height/hash differ from the block".into());
+    }
+    outcomes.push(format!("recv:{}", want_recv.len().min(3)));
+    outcomes.push(format!("spend:{}", want_spend.len().min(2)));
+    if rec.txs.iter().any(|t| t.spent.iter().any(|i| u.notes[*i].owner == Foreign)) {
+        outcomes.push("untracked-spend-ignored".into());
+    }
+    Ok(outcomes)
+}
+
+fn case_a(base_u: &Universe, env: &ScanEnv, spec: &BlockSpec, seed: u64, with_prior: bool, with_meta: bool) -> Result<Vec<String>, String> {
+    let mut u = base_u.clone();
+    u.extend(0, None, &[spec.clone()], seed);
+    let h = FIRST + 1;
+    let mut cb = u.chains[0].blocks[&h].cb.clone();
+    if !with_meta {
+        cb.chain_metadata = None;
+    }
+    let pm = prior_meta(&u, h);
+    let r = mc_core::catch(|| scan_block(&u.network, cb, &env.keys, &env.nullifiers, if with_prior { Some(&pm) } else { None }));
+    match r {
+        Err(p) => Err(format!("panic in scan_block: {p}")),
+        Ok(Err(e)) => {
+            if !with_prior && !with_meta {
+                // documented: tree sizes unknown without either source
+                Ok(vec![format!("refused-without-tree-size-source:{}", matches!(e, zcash_client_backend::scanning::ScanError::TreeSizeUnknown { .. }))])
+            } else {
+                Err(format!("scan_block refused a well-formed connected block: {e:?}"))
+            }
+        }
+        Ok(Ok(sb)) => {
+            if !with_prior && !with_meta {
+                return Err("scan_block accepted a block with neither prior metadata nor chain metadata after activation".into());
+            }
+            compare(env, &u, h, &sb)
+        }
+    }
+}
+
+// ------------------------------------------------------------------------------------------------
+// (b) malformation lattice
+// ------------------------------------------------------------------------------------------------
+
+fn representative() -> BlockSpec {
+    block(vec![
+        tx(vec![spend("a1"), okind(2, Sapling, 40_000), okind(4, Sapling, 9_000), okind(0, Orchard, 8_000)]),
+        tx(vec![okind(3, Ironwood, 7_000), okind(1, Sapling, 6_000)]),
+    ])
+}
+
+fn corruptions() -> Vec<(String, Box<dyn Fn(&mut CompactBlock) + Send + Sync>)> {
+    let mut v: Vec<(String, Box<dyn Fn(&mut CompactBlock) + Send + Sync>)> = vec![];
+    v.push(("height-1".into(), Box::new(|b| b.height -= 1)));
+    v.push(("height+1".into(), Box::new(|b| b.height += 1)));
+    v.push(("prev_hash-bit".into(), Box::new(|b| b.prev_hash[0] ^= 1)));
+    v.push(("prev_hash-last-bit".into(), Box::new(|b| b.prev_hash[31] ^= 0x80)));
+    v.push(("prev_hash:empty".into(), Box::new(|b| b.prev_hash.clear())));
+    v.push(("prev_hash:-1".into(), Box::new(|b| {
+        b.prev_hash.pop();
+    })));
+    v.push(("prev_hash:+1".into(), Box::new(|b| b.prev_hash.push(0))));
+    v.push(("height:2^32".into(), Box::new(|b| b.height = 1 << 32)));
+    for pool in 0..3usize {
+        for (name, f) in [("-1", -1i64), ("+1", 1), ("=0", i64::MIN)] {
+            v.push((
+                format!("tree-size:{pool}:{name}"),
+                Box::new(move |b| {
+                    let m = b.chain_metadata.as_mut().unwrap();
+                    let field = match pool {
+                        0 => &mut m.sapling_commitment_tree_size,
+                        1 => &mut m.orchard_commitment_tree_size,
+                        _ => &mut m.ironwood_commitment_tree_size,
+                    };
+                    *field = if f == i64::MIN { 0 } else { (*field as i64 + f) as u32 };
+                }),
+            ));
+        }
+    }
+    // fixed-length fields with wrong lengths
+    for (lname, delta) in [("empty", None), ("-1", Some(-1i64)), ("+1", Some(1))] {
+        let adj = move |x: &mut Vec<u8>| match delta {
+            None => x.clear(),
+            Some(-1) => {
+                x.pop();
+            }
+            _ => x.push(0),
+        };
+        v.push((format!("sapling-cmu:{lname}"), Box::new(move |b| adj(&mut b.vtx[0].outputs[0].cmu))));
+        v.push((format!("sapling-epk:{lname}"), Box::new(move |b| adj(&mut b.vtx[0].outputs[1].ephemeral_key))));
+        v.push((format!("sapling-ciphertext:{lname}"), Box::new(move |b| adj(&mut b.vtx[1].outputs[0].ciphertext))));
+        v.push((format!("sapling-nf:{lname}"), Box::new(move |b| adj(&mut b.vtx[0].spends[0].nf))));
+        v.push((format!("orchard-cmx:{lname}"), Box::new(move |b| adj(&mut b.vtx[0].actions[0].cmx))));
+        v.push((format!("orchard-nf:{lname}"), Box::new(move |b| adj(&mut b.vtx[0].actions[0].nullifier))));
+        v.push((format!("orchard-epk:{lname}"), Box::new(move |b| adj(&mut b.vtx[0].actions[0].ephemeral_key))));
+        v.push((format!("orchard-ciphertext:{lname}"), Box::new(move |b| adj(&mut b.vtx[0].actions[0].ciphertext))));
+        v.push((format!("ironwood-cmx:{lname}"), Box::new(move |b| adj(&mut b.vtx[1].ironwood_actions[0].cmx))));
+        v.push((format!("ironwood-nf:{lname}"), Box::new(move |b| adj(&mut b.vtx[1].ironwood_actions[0].nullifier))));
+        v.push((format!("ironwood-ciphertext:{lname}"), Box::new(move |b| adj(&mut b.vtx[1].ironwood_actions[0].ciphertext))));
+        v.push((format!("txid:{lname}"), Box::new(move |b| adj(&mut b.vtx[1].txid))));
+        v.push((format!("block-hash:{lname}"), Box::new(move |b| adj(&mut b.hash))));
+    }
+    // non-canonical field elements
+    v.push(("sapling-cmu:noncanonical".into(), Box::new(|b| b.vtx[0].outputs[0].cmu = vec![0xff; 32])));
+    v.push(("orchard-cmx:noncanonical".into(), Box::new(|b| b.vtx[0].actions[0].cmx = vec![0xff; 32])));
+    v.push(("orchard-nf:noncanonical".into(), Box::new(|b| b.vtx[0].actions[0].nullifier = vec![0xff; 32])));
+    v
+}
+
+struct OneBlockSource {
+    blocks: Vec<CompactBlock>,
+}
+impl BlockSource for OneBlockSource {
+    type Error = std::convert::Infallible;
+    fn with_blocks<F, WalletErrT>(&self, from_height: Option<BlockHeight>, limit: Option<usize>, mut with_block: F) -> Result<(), ChainError<WalletErrT, Self::Error>>
+    where
+        F: FnMut(CompactBlock) -> Result<(), ChainError<WalletErrT, Self::Error>>,
+    {
+        let _ = from_height;
+        for b in self.blocks.iter().take(limit.unwrap_or(usize::MAX)) {
+            with_block(b.clone())?;
+        }
+        Ok(())
+    }
+}
+
+fn case_b(base_u: &Universe, env: &mut ScanEnv, name: &str, f: &(dyn Fn(&mut CompactBlock) + Send + Sync), snap: &db::Snapshot) -> Result<Vec<String>, String> {
+    let mut u = base_u.clone();
+    u.extend(0, None, &[representative()], 77);
+    let h = FIRST + 1;
+    let good = u.chains[0].blocks[&h].cb.clone();
+    let mut cb = good.clone();
+    f(&mut cb);
+    let pm = prior_meta(&u, h);
+    // 1. directly
+    let bad = cb.clone();
+    let r = mc_core::catch(|| scan_block(&u.network, bad, &env.keys, &env.nullifiers, Some(&pm)));
+    let kind = match r {
+        Err(p) => return Err(format!("{name}: panic in scan_block on a malformed block: {p}")),
+        Ok(Ok(_)) => return Err(format!("{name}: scan_block accepted the corrupted block")),
+        Ok(Err(e)) => format!("{e:?}").split([' ', '{', '(']).next().unwrap_or("").to_string(),
+    };
+    // 2. through scan_cached_blocks on the wallet: error, nothing applied, also when the bad block
+    //    is the second of a batch
+    for lead_good in [false, true] {
+        db::restore(env.w.db.conn_mut(), snap);
+        env.w.refresh_accounts();
+        let pre = db::dump_digest(env.w.db.conn(), &[]);
+        let (src, from, st) = if lead_good {
+            // batch = [setup block (already scanned: a re-scan), corrupted block]
+            (OneBlockSource { blocks: vec![u.chains[0].blocks[&FIRST].cb.clone(), cb.clone()] }, FIRST, u.genesis.clone())
+        } else {
+            (OneBlockSource { blocks: vec![cb.clone()] }, h, u.state_before(0, h).clone())
+        };
+        let r = mc_core::catch(|| scan_cached_blocks(&u.network, &src, &mut env.w.db, BlockHeight::from_u32(from), &st, 2));
+        match r {
+            Err(p) => return Err(format!("{name}: panic in scan_cached_blocks on a malformed block: {p}")),
+            Ok(Ok(_)) => return Err(format!("{name}: scan_cached_blocks accepted the corrupted block")),
+            Ok(Err(_)) => {}
+        }
+        if db::dump_digest(env.w.db.conn(), &[]) != pre {
+            return Err(format!("{name}: scan_cached_blocks failed on the corrupted block but the wallet database changed (partially applied)"));
+        }
+    }
+    Ok(vec![format!("rejected:{kind}")])
+}
+
+// ------------------------------------------------------------------------------------------------
+// (c) schedules of the batched decryptor
+// ------------------------------------------------------------------------------------------------
+
+fn many(pool: Pool, n: usize, wallet_at: &[(usize, Owner, Scope, u64)]) -> TxSpec {
+    let mut items = vec![];
+    for i in 0..n {
+        if let Some((_, o, s, v)) = wallet_at.iter().find(|w| w.0 == i) {
+            items.push((None, Item::Out { owner: *o, pool, scope: *s, value: *v }));
+        } else {
+            items.push(foreign(pool, 1_000 + i as u64));
+        }
+    }
+    tx(items)
+}
+
+/// Blocks with enough outputs for several batches per pool (threshold 100, hard-coded in
+/// scan_cached_blocks): the threshold is hit exactly, exceeded inside one transaction, missed by
+/// one, and a trailing partial batch is flushed at the end.
+pub fn batchy(level: usize) -> Universe {
+    let mut u = base((5, 7));
+    let mut blocks = vec![
+        // sapling 60 + 60 -> first batch (120); orchard 100 exactly -> one batch
+        block(vec![
+            many(Sapling, 60, &[(0, A, External, 51_000), (59, B, External, 52_000)]),
+            many(Sapling, 60, &[(30, A, Internal, 53_000)]),
+            many(Orchard, 100, &[(99, A, External, 54_000), (0, B, External, 55_000)]),
+        ]),
+        // sapling 99 (no flush) then 1 -> exactly 100 -> second batch; spend of a1 and a2
+        block(vec![many(Sapling, 99, &[(98, A, Diversified, 56_000)]), tx(vec![spend("a1"), okind(2, Sapling, 57_000)]), tx(vec![spend("a2"), okind(2, Orchard, 58_000)])]),
+    ];
+    if level >= 1 {
+        // ironwood 50 + 51 -> one batch; orchard 3 (+1 from the spend above) -> trailing batch
+        blocks.push(block(vec![many(Ironwood, 50, &[(49, A, External, 59_000)]), many(Ironwood, 51, &[(0, B, External, 60_000), (50, A, Internal, 61_000)]), many(Orchard, 3, &[(1, A, Internal, 62_000)])]));
+    }
+    if level >= 2 {
+        // sapling 101 in one transaction -> third batch; 5 more -> trailing batch
+        blocks.push(block(vec![many(Sapling, 101, &[(100, A, External, 63_000)]), many(Sapling, 5, &[(4, B, External, 64_000), (0, A, External, 65_000)])]));
+    }
+    u.extend(0, None, &blocks, 500 + level as u64);
+    u
+}
+
+#[derive(Default)]
+struct Sched {
+    queue: Vec<(usize, verif_exec::Job)>,
+    submitted: usize,
+    prefix: Vec<usize>,
+    /// (queue length, choice) at every decision point
+    points: Vec<(usize, usize)>,
+    ran: Vec<usize>,
+    stuck: bool,
+}
+
+struct Exec(Rc<RefCell<Sched>>);
+impl verif_exec::Executor for Exec {
+    fn spawn(&mut self, job: verif_exec::Job) {
+        let mut s = self.0.borrow_mut();
+        let id = s.submitted;
+        s.submitted += 1;
+        s.queue.push((id, job));
+    }
+    fn next(&mut self) -> Option<verif_exec::Job> {
+        let mut s = self.0.borrow_mut();
+        if s.queue.is_empty() {
+            return None;
+        }
+        let i = s.points.len();
+        let c = s.prefix.get(i).copied().unwrap_or(0);
+        let q = s.queue.len();
+        if c >= q {
+            panic!("MACHINERY: schedule prefix diverged (choice {c} of {q})");
+        }
+        s.points.push((q, c));
+        let (id, job) = s.queue.remove(c);
+        s.ran.push(id);
+        Some(job)
+    }
+    fn stuck(&mut self) {
+        self.0.borrow_mut().stuck = true;
+        panic!("DEADLOCK: scan is waiting for decryption results of a transaction but no submitted batch task is left to produce them");
+    }
+}
+
+struct SchedResult {
+    points: Vec<(usize, usize)>,
+    ran: Vec<usize>,
+    jobs: usize,
+    canon: u128,
+    summary: String,
+}
+
+fn run_schedule(u: &Universe, cx: &graph::Ctx, w: &mut Wallet, snap: &db::Snapshot, prefix: &[usize]) -> Result<SchedResult, String> {
+    db::restore(w.db.conn_mut(), snap);
+    w.refresh_accounts();
+    let shared = Rc::new(RefCell::new(Sched { prefix: prefix.to_vec(), ..Default::default() }));
+    verif_exec::install(Box::new(Exec(shared.clone())));
+    let ctip = u.chains[0].tip();
+    let mut m = Model::default();
+    m.scanned.insert(FIRST);
+    m.tip = Some(FIRST);
+    for t in &u.chains[0].blocks[&FIRST].txs {
+        m.seen.insert(t.txid, FIRST);
+    }
+    let r = graph::apply(w, u, &m, &Op::Scan { from: FIRST + 1, to: ctip });
+    verif_exec::uninstall();
+    // leftover tasks (none expected after a successful scan) must run without panicking
+    let leftovers: Vec<(usize, verif_exec::Job)> = std::mem::take(&mut shared.borrow_mut().queue);
+    let n_left = leftovers.len();
+    for (_, job) in leftovers {
+        if let Err(p) = mc_core::catch(job) {
+            return Err(format!("a batch task that was never awaited panicked when run after the scan: {p}"));
+        }
+    }
+    let s = shared.borrow();
+    let model = match r {
+        Err(e) => return Err(format!("schedule {:?}: {e}", s.ran)),
+        Ok(graph::StepResult::Refused(why)) => return Err(format!("schedule {:?}: refused {why}", s.ran)),
+        Ok(graph::StepResult::Done(n)) => n,
+    };
+    if n_left > 0 {
+        return Err(format!("schedule {:?}: {n_left} submitted batch tasks were never needed by any transaction", s.ran));
+    }
+    graph::check_balance(w, cx, &model).map_err(|e| format!("schedule {:?} (task run order): {e}", s.ran))?;
+    let summary = format!("{:?}", db::query_rows(w.db.conn(), "SELECT count(*) FROM sapling_received_notes UNION ALL SELECT count(*) FROM orchard_received_notes UNION ALL SELECT count(*) FROM ironwood_received_notes"));
+    Ok(SchedResult { points: s.points.clone(), ran: s.ran.clone(), jobs: s.submitted, canon: mc_core::key128(&graph::canon(w.db.conn())), summary })
+}
+
+/// Inline (runner-less) path: scan_block + put_blocks per block.
+fn inline_path(u: &Universe, cx: &graph::Ctx, w: &mut Wallet, snap: &db::Snapshot) -> Result<Vec<String>, String> {
+    db::restore(w.db.conn_mut(), snap);
+    w.refresh_accounts();
+    let ctip = u.chains[0].tip();
+    let keys = ScanningKeys::from_account_ufvks(w.db.get_unified_full_viewing_keys().map_err(|e| format!("{e:?}"))?);
+    let mut m = Model::default();
+    m.scanned.insert(FIRST);
+    m.tip = Some(FIRST);
+    for t in &u.chains[0].blocks[&FIRST].txs {
+        m.seen.insert(t.txid, FIRST);
+    }
+    for h in FIRST + 1..=ctip {
+        let nfs = Nullifiers::unspent(&w.db).map_err(|e| format!("{e:?}"))?;
+        let pm = prior_meta(u, h);
+        let sb = scan_block(&u.network, u.chains[0].blocks[&h].cb.clone(), &keys, &nfs, Some(&pm)).map_err(|e| format!("inline scan_block: {e:?}"))?;
+        w.db.put_blocks(u.state_before(0, h), vec![sb]).map_err(|e| format!("inline put_blocks: {e:?}"))?;
+        m.scanned.insert(h);
+        m.tip = Some(h);
+        for t in &u.chains[0].blocks[&h].txs {
+            if t.created.iter().chain(&t.spent).any(|i| u.notes[*i].owner != Foreign) {
+                m.seen.entry(t.txid).or_insert(h);
+            }
+        }
+    }
+    graph::check_balance(w, cx, &m).map_err(|e| format!("inline path: {e}"))?;
+    let mut rows = vec![];
+    for p in POOLS {
+        rows.extend(db::query_rows(w.db.conn(), &graph::notes_sql(p, false)));
+        rows.extend(db::query_rows(w.db.conn(), &graph::spends_sql(p, false)));
+    }
+    Ok(rows)
+}
+
+fn schedules(run: &Run, level: usize, bound: usize, wall_cap: f64, t0: Instant) {
+    let u = batchy(level);
+    let cfg = graph::Cfg {
+        retention: 4,
+        max_rewinds: 0,
+        max_depth: 0,
+        check_balance: true,
+        check_trees: false,
+        check_queue: false,
+        wall_cap_s: 0.0,
+        state_cap: 0,
+        tips: vec![],
+        rewind_heights: vec![],
+        splits: vec![],
+        with_roots: false,
+        with_client: false,
+        free_scans: false,
+        segment_scans: false,
+    };
+    let cx = graph::Ctx { u: &u, cfg: &cfg, fresh: vec![graph::FreshRef::default()] };
+    // pre-state: setup block scanned, tip known
+    let mut w0 = db::new_wallet(&u, 4, false);
+    scan_cached_blocks(&u.network, &u.source(0), &mut w0.db, BlockHeight::from_u32(FIRST), &u.genesis, 1).expect("setup scan");
+    let snap = db::snapshot(w0.db.conn());
+    // inline reference
+    let inline_rows = match inline_path(&u, &cx, &mut w0, &snap) {
+        Ok(r) => r,
+        Err(e) => {
+            run.fail("inline", format!("inline:level{level}"), e, json!({"level": level}));
+            return;
+        }
+    };
+    // iterative deviation-bounded DFS over schedule prefixes, one level of the prefix tree at a time
+    let mut frontier: Vec<Vec<usize>> = vec![vec![]];
+    let mut canon0: Option<u128> = None;
+    let mut total = 0u64;
+    let mut jobs_seen = 0usize;
+    let fails: Mutex<Vec<(Vec<usize>, String)>> = Mutex::new(vec![]);
+    let mut distinct_orders: BTreeSet<Vec<usize>> = BTreeSet::new();
+    while !frontier.is_empty() {
+        if t0.elapsed().as_secs_f64() > wall_cap {
+            run.cap_hit(&format!("schedules level {level}: wall cap {wall_cap}s with {} schedule prefixes unexplored", frontier.len()));
+            break;
+        }
+        let results: Vec<Option<(Vec<usize>, SchedResult, Vec<String>)>> = par_map(
+            &frontier,
+            || db::new_wallet(&u, 4, false),
+            |w, prefix| {
+                if t0.elapsed().as_secs_f64() > wall_cap + 5.0 {
+                    return None;
+                }
+                match run_schedule(&u, &cx, w, &snap, prefix) {
+                    Err(e) => {
+                        fails.lock().unwrap().push((prefix.clone(), e));
+                        None
+                    }
+                    Ok(r) => {
+                        let mut rows = vec![];
+                        for p in POOLS {
+                            rows.extend(db::query_rows(w.db.conn(), &graph::notes_sql(p, false)));
+                            rows.extend(db::query_rows(w.db.conn(), &graph::spends_sql(p, false)));
+                        }
+                        Some((prefix.clone(), r, rows))
+                    }
+                }
+            },
+        );
+        let mut next = vec![];
+        for (prefix, r, rows) in results.into_iter().flatten() {
+            total += 1;
+            jobs_seen = jobs_seen.max(r.jobs);
+            distinct_orders.insert(r.ran.clone());
+            if rows != inline_rows {
+                fails.lock().unwrap().push((prefix.clone(), format!("batched scan with task order {:?} stores different notes/spends than the inline path", r.ran)));
+            }
+            match canon0 {
+                None => canon0 = Some(r.canon),
+                Some(c) if c != r.canon => fails.lock().unwrap().push((prefix.clone(), format!("wallet state after task order {:?} differs from the state after FIFO order ({})", r.ran, r.summary))),
+                _ => {}
+            }
+            // children: deviate at one later decision point
+            let devs = prefix.iter().filter(|c| **c != 0).count();
+            if devs < bound {
+                for i in prefix.len()..r.points.len() {
+                    for alt in 1..r.points[i].0 {
+                        let mut p: Vec<usize> = r.points[..i].iter().map(|x| x.1).collect();
+                        p.push(alt);
+                        next.push(p);
+                    }
+                }
+            }
+        }
+        frontier = next;
+    }
+    run.add_graph(distinct_orders.len() as u64, total, total);
+    run.eval_distinct(total);
+    run.outcome_n(&format!("schedules:level{level}:jobs{jobs_seen}"), total);
+    run.section(&format!("schedules_level{level}"), json!({"batch_tasks": jobs_seen, "schedules_run": total, "distinct_task_orders": distinct_orders.len(), "deviation_bound": bound, "outputs_scanned": u.notes.len()}));
+    if let Some(o) = distinct_orders.iter().nth(1) {
+        run.sample(json!({"level": level, "task_run_order": o}));
+    }
+    for (prefix, msg) in fails.into_inner().unwrap() {
+        if msg.contains("MACHINERY") {
+            mc_core::machinery_error(&msg);
+        }
+        run.fail("schedule", format!("schedule:level{level}:{prefix:?}"), msg, json!({"level": level, "prefix": prefix}));
+    }
+}
+
+// ------------------------------------------------------------------------------------------------
+
+pub fn replay(kind: &str, case: &Value) -> Result<(), String> {
+    match kind {
+        "shape" => {
+            let g = case["genesis"].as_u64().unwrap_or(0);
+            let base_u = base(if g == 0 { (0, 0) } else { (5, 7) });
+            let env = scan_env(&base_u);
+            let name = case["shape"].as_str().unwrap_or("");
+            let (i, (_, spec)) = shapes().into_iter().enumerate().find(|(_, s)| s.0 == name).ok_or("unknown shape")?;
+            case_a(&base_u, &env, &spec, 1000 + i as u64, case["with_prior"].as_bool().unwrap_or(true), case["with_meta"].as_bool().unwrap_or(true)).map(|_| ())
+        }
+        "corruption" => {
+            let base_u = base((5, 7));
+            let mut env = scan_env(&base_u);
+            let snap = db::snapshot(env.w.db.conn());
+            let name = case["name"].as_str().unwrap_or("");
+            let (_, f) = corruptions().into_iter().find(|c| c.0 == name).ok_or("unknown corruption")?;
+            case_b(&base_u, &mut env, name, f.as_ref(), &snap).map(|_| ())
+        }
+        "schedule" | "inline" => {
+            let level = case["level"].as_u64().unwrap_or(0) as usize;
+            let u = batchy(level);
+            let cfg = graph::Cfg { retention: 4, max_rewinds: 0, max_depth: 0, check_balance: true, check_trees: false, check_queue: false, wall_cap_s: 0.0, state_cap: 0, tips: vec![], rewind_heights: vec![], splits: vec![], with_roots: false, with_client: false, free_scans: false, segment_scans: false };
+            let cx = graph::Ctx { u: &u, cfg: &cfg, fresh: vec![graph::FreshRef::default()] };
+            let mut w = db::new_wallet(&u, 4, false);
+            scan_cached_blocks(&u.network, &u.source(0), &mut w.db, BlockHeight::from_u32(FIRST), &u.genesis, 1).expect("setup scan");
+            let snap = db::snapshot(w.db.conn());
+            let inline_rows = inline_path(&u, &cx, &mut w, &snap)?;
+            if kind == "inline" {
+                return Ok(());
+            }
+            let prefix: Vec<usize> = serde_json::from_value(case["prefix"].clone()).map_err(|e| e.to_string())?;
+            let fifo = run_schedule(&u, &cx, &mut w, &snap, &[])?;
+            let r = run_schedule(&u, &cx, &mut w, &snap, &prefix)?;
+            let mut rows = vec![];
+            for p in POOLS {
+                rows.extend(db::query_rows(w.db.conn(), &graph::notes_sql(p, false)));
+                rows.extend(db::query_rows(w.db.conn(), &graph::spends_sql(p, false)));
+            }
+            if rows != inline_rows {
+                return Err(format!("batched scan with task order {:?} stores different notes/spends than the inline path", r.ran));
+            }
+            if r.canon != fifo.canon {
+                return Err(format!("wallet state after task order {:?} differs from the state after FIFO order", r.ran));
+            }
+            Ok(())
+        }
+        _ => Err(format!("unknown kind {kind}")),
+    }
+}
+
+pub fn run(args: &Args) -> i32 {
+    let run = Run::new(args, "model_checking");
+    let t0 = Instant::now();
+    run.set_rule(
+        "(a) every block of a shape lattice (kind lists per pool over {A-external, A-diversified, A-internal, B-external, foreign}, 1-3 transactions, \\
+         spends of tracked/untracked nullifiers) x prior tree sizes x {prior metadata, chain metadata} through scanning::scan_block; (b) every single \\
+         corruption of continuity metadata / field lengths through scan_block and scan_cached_blocks; (c) every run-to-completion order (within the \\
+         deviation bound) of the batch trial-decryption tasks of scan_cached_blocks under a harness executor; cases are distinct by construction; \\
+         oracle = generation-time ground truth, inline-path differential, identical wallet state across schedules",
+    );
+    run.assume("batch tasks share no memory and communicate only through per-transaction channels drained after disconnection, so exploring run-to-completion task orders covers every parallel execution that does not depend on arrival order (flume internals are not interleaved at instruction level)");
+    run.assume("without prior block metadata and without chain metadata the tree sizes are unknowable after activation: refusal (TreeSizeUnknown) is the documented behaviour");
+    // (a)
+    let sh = shapes();
+    run.section("shape_lattice_blocks", json!(sh.len()));
+    for g in [0u64, 1] {
+        let base_u = base(if g == 0 { (0, 0) } else { (5, 7) });
+        let items: Vec<(usize, bool, bool)> = (0..sh.len()).flat_map(|i| [(i, true, true), (i, true, false), (i, false, true)].into_iter().chain(if i % 97 == 0 { vec![(i, false, false)] } else { vec![] })).collect();
+        let fails: Mutex<Vec<(usize, bool, bool, String)>> = Mutex::new(vec![]);
+        let outs: Mutex<BTreeMap<String, u64>> = Mutex::new(BTreeMap::new());
+        par_map(
+            &items,
+            || scan_env(&base_u),
+            |env, (i, wp, wm)| match case_a(&base_u, env, &sh[*i].1, 1000 + *i as u64, *wp, *wm) {
+                Ok(o) => {
+                    let mut gm = outs.lock().unwrap();
+                    for x in o {
+                        *gm.entry(format!("a:{x}")).or_insert(0) += 1;
+                    }
+                }
+                Err(e) => fails.lock().unwrap().push((*i, *wp, *wm, e)),
+            },
+        );
+        run.eval_distinct(items.len() as u64);
+        for (k, v) in outs.into_inner().unwrap() {
+            run.outcome_n(&k, v);
+        }
+        for (i, wp, wm, e) in fails.into_inner().unwrap() {
+            run.fail("shape", format!("shape:g{g}:{}:prior={wp}:meta={wm}", sh[i].0), e, json!({"genesis": g, "shape": sh[i].0, "with_prior": wp, "with_meta": wm}));
+        }
+    }
+    run.sample(json!({"shape": sh[40].0, "meaning": "one transaction, Sapling outputs to the listed recipient kinds (0=A external,1=A diversified,2=A internal,3=B external,4=foreign)"}));
+    // (b)
+    {
+        let base_u = base((5, 7));
+        let cs = corruptions();
+        run.section("corruptions", json!(cs.len()));
+        let mut env = scan_env(&base_u);
+        let snap = db::snapshot(env.w.db.conn());
+        for (name, f) in &cs {
+            match case_b(&base_u, &mut env, name, f.as_ref(), &snap) {
+                Ok(o) => {
+                    for x in o {
+                        run.outcome(&format!("b:{x}"));
+                    }
+                }
+                Err(e) => run.fail("corruption", format!("corruption:{name}"), e, json!({"name": name})),
+            }
+        }
+        run.eval_distinct(cs.len() as u64);
+        run.sample(json!({"corruption": "tree-size:1:+1", "meaning": "orchard_commitment_tree_size in the block's chain metadata is one too large"}));
+    }
+    // (c)
+    match args.tier {
+        Tier::Quick => {
+            schedules(&run, 0, 99, 40.0, t0);
+            schedules(&run, 1, 1, 50.0, t0);
+        }
+        Tier::Thorough => {
+            schedules(&run, 0, 99, 200.0, t0);
+            schedules(&run, 1, 99, 500.0, t0);
+            schedules(&run, 2, 99, 840.0, t0);
+        }
+    }
+    run.require(run.outcomes_distinct() >= 8 || run.failure_count() > 0, "too few outcome classes");
+    run.finish(&replay)
 }
